@@ -51,8 +51,8 @@ type parsed struct {
 	ambiguous bool // readable only leniently: strict RFC 7233 grammar rejects it (or a recipient may reasonably do so)
 
 	whitespace, emptyElem, plusSign, overflow, reversed bool
-	listOWS  bool // SP / HTAB next to a comma (allowed by the list grammar)
-	unitCase bool // the unit is "bytes" in another letter case
+	listOWS                                             bool // SP / HTAB next to a comma (allowed by the list grammar)
+	unitCase                                            bool // the unit is "bytes" in another letter case
 }
 
 var numRE = regexp.MustCompile(`^\+?[0-9]+$`)
@@ -383,6 +383,10 @@ type obs struct {
 	Body      []byte
 	BodyErr   error
 	Truncated bool // more than the read bound was available
+
+	// BoundaryWho: set when the case called SetBoundary with a boundary that is
+	// not a plain token; names the case shape in signatures about the framing.
+	BoundaryWho string
 }
 
 // produce runs modify on res and records what it returned; the body is left
@@ -450,6 +454,9 @@ func allZero(b []byte) bool {
 // header caused it.
 var answered416Classes = map[string]bool{"416-with-unreadable-body": true, "upstream-bytes-served": true, "416-content-length-mismatch": true, "stale-content-range": true}
 
+// multiRangeClasses are about the framing of a multipart answer.
+var multiRangeClasses = map[string]bool{"stale-content-range": true, "multipart-boundary-unusable": true, "multipart-unparseable": true, "part-count-mismatch": true}
+
 // judge decides whether o is an answer the statement allows for content and
 // Range header h. who is "body" or "static". Accepted: 200 with the full
 // content and matching Content-Length (always); 206 carrying exactly the
@@ -464,6 +471,13 @@ func judge(who string, content []byte, h string, o obs) kit.Verdict {
 	sig := func(class string) string {
 		if answered416Classes[class] && o.Status == http.StatusRequestedRangeNotSatisfiable {
 			return "C20/" + who + "/answered-416/" + class
+		}
+		if multiRangeClasses[class] && o.Status == http.StatusPartialContent && (class == "stale-content-range" || o.BoundaryWho != "") {
+			// about the multipart framing, not about where the ranges lie
+			if o.BoundaryWho != "" && class != "stale-content-range" {
+				return "C20/" + o.BoundaryWho + "/multi-range/" + class
+			}
+			return "C20/" + who + "/multi-range/" + class
 		}
 		if h == "" {
 			return "C20/" + who + "/no-range/" + class
